@@ -265,9 +265,15 @@ func genC16() {
 	g.def("index_template_trailer", "string", coqStr(trailer), "literal text after the last action of apkIndexTemplate")
 	g.def("index_join_sep", "string", coqStr(joinSep), "separator of the template's join helper")
 
-	// scanner limit of ParsePackageIndex: indexScanner.Buffer(buf, meg)
-	if fd := findFunc(idx, "", "ParsePackageIndex"); fd != nil {
+	// scanner limit: <scanner>.Buffer(buf, max) in a reader; (-1, false) when the
+	// function never calls Buffer (bufio's default token limit applies then)
+	scannerMax := func(rel, fn string) (int64, bool) {
+		fd := findFunc(rel, "", fn)
+		if fd == nil {
+			fail("%s: %s not found", rel, fn)
+		}
 		var maxTok int64 = -1
+		called := false
 		vals := map[string]int64{}
 		ast.Inspect(fd, func(n ast.Node) bool {
 			switch x := n.(type) {
@@ -281,6 +287,7 @@ func genC16() {
 				}
 			case *ast.CallExpr:
 				if se, ok := x.Fun.(*ast.SelectorExpr); ok && se.Sel.Name == "Buffer" && len(x.Args) == 2 {
+					called = true
 					if v, ok := intLit(x.Args[1]); ok {
 						maxTok = v
 					} else if id, ok := x.Args[1].(*ast.Ident); ok {
@@ -292,10 +299,20 @@ func genC16() {
 			}
 			return true
 		})
-		if maxTok < 0 {
-			fail("%s: ParsePackageIndex: scanner Buffer(_, max) not found", idx)
+		if called && maxTok < 0 {
+			fail("%s: %s: the max argument of scanner Buffer(_, max) is not a constant the translator can evaluate", rel, fn)
 		}
+		return maxTok, called
+	}
+	if maxTok, called := scannerMax(idx, "ParsePackageIndex"); called {
 		g.def("index_max_token", "N", fmt.Sprintf("%d%%N", maxTok), "max token size given to bufio.Scanner.Buffer in ParsePackageIndex")
+	} else {
+		fail("%s: ParsePackageIndex: scanner Buffer(_, max) not found", idx)
+	}
+	if maxTok, called := scannerMax(inst, "ParseInstalled"); called {
+		g.def("installed_max_token_src", "N", fmt.Sprintf("%d%%N", maxTok), "max token size given to bufio.Scanner.Buffer in ParseInstalled")
+	} else {
+		g.def("installed_max_token_src", "N", "65536%N", "ParseInstalled never calls Scanner.Buffer: bufio.MaxScanTokenSize applies")
 	}
 	usesCall := func(rel, fn, sel string) bool {
 		fd := findFunc(rel, "", fn)
